@@ -185,6 +185,16 @@ class BuiltinMixin:
         st.assume(z3.Length(res) == z3.Length(seq))
         st.assume(qforall([x], z3.Contains(res, z3.Unit(x)) == z3.Contains(seq, z3.Unit(x))))
         self.sorted_info[res.decl().name()] = (seq, keyfn, ety)
+        if keyfn is None:
+            # adjacent order of the values themselves (uninterpreted total preorder val_le)
+            # (two-index form: no arithmetic inside the trigger, no matching loop)
+            j, k = fresh_int("j"), fresh_int("k")
+            st.assume(qforall([j, k], z3.Implies(z3.And(0 <= j, j <= k, k < z3.Length(res)), self.key_le(V(res[j], ety), V(res[k], ety))),
+                              patterns=[z3.MultiPattern(res[j], res[k])]))
+            # z3 rewrites seq.nth internally, so triggers on it rarely fire: a loop over the result gets the instance
+            # (i - 1, i) of this fact by hand (run_loop)
+            self.seq_lemmas[res.decl().name()] = lambda a, b, res=res, ety=ety: z3.Implies(z3.And(0 <= a, a <= b, b < z3.Length(res)),
+                                                                                       self.key_le(V(res[a], ety), V(res[b], ety)))
         if keyfn is not None and isinstance(keyfn, ast.Lambda):
             # adjacent order on integer keys / sort_key ghost for others
             k = fresh_int("k")
@@ -337,9 +347,17 @@ class BuiltinMixin:
         return R(st, V(NONE, "none"))
 
     def m_set_add(self, st, recv, a, kw, lineno):
+        # the iteration order of a set is unspecified (hash order): after an insertion the enumeration sequence is an
+        # arbitrary arrangement of the members, not the insertion order
         seq = self.elems(st, recv)
         has = z3.Contains(seq, z3.Unit(a[0].t))
-        st.write("$elems", vr(recv.t), z3.If(has, seq, z3.Concat(seq, z3.Unit(a[0].t))))
+        res = z3.Const(fresh_name("setadd"), SeqV)
+        x = fresh_val("x")
+        st.assume(qforall([x], z3.Contains(res, z3.Unit(x)) == z3.Or(z3.Contains(seq, z3.Unit(x)), x == a[0].t)))
+        st.assume(z3.Contains(res, z3.Unit(a[0].t)))
+        st.assume(z3.Length(res) == z3.If(has, z3.Length(seq), z3.Length(seq) + 1))
+        st.assume(z3.Implies(z3.Length(seq) == 0, res == z3.Unit(a[0].t)))
+        st.write("$elems", vr(recv.t), z3.If(has, seq, res))
         return R(st, V(NONE, "none"))
 
     def m_set_update(self, st, recv, a, kw, lineno):
